@@ -6,6 +6,8 @@
 (*   nostart     : every start task given an inbound transition (closed cycle)                *)
 (*   grammar     : an expression-bearing position holding an expression with invalid grammar  *)
 (*   unassigned  : a position referring, in a documented form, to a variable nothing assigns  *)
+(*   selfref     : a vars / publish / output entry reading the very name it assigns, which      *)
+(*                 nothing assigns before it (the entry's own name is not yet in scope)        *)
 (* and prints each with the report it must produce:  MustReport = [cat, task, pos, ti].        *)
 (* The harness applies the mutant to the concrete definition, runs the real inspect() and      *)
 (* hands the observed entries back (spec/Groups.tla, kind "inspect", clause C15_reported).     *)
@@ -37,6 +39,9 @@ Faults(d) ==
                                      x[4] <= Len(d.tasks[x[2]].next) /\ (x[1] = "unassigned" \/ x[5] = 0)}}
   \cup {[kind |-> kd, task |-> "none", pos |-> p, ti |-> -1, k |-> 0, form |-> fm] :
           <<kd, p, fm>> \in {x \in {"grammar", "unassigned"} \X {"vars", "output"} \X Forms : x[1] = "unassigned" \/ x[3] = 0}}
+  \cup {[kind |-> "selfref", task |-> "none", pos |-> p, ti |-> -1, k |-> 0, form |-> fm] : <<p, fm>> \in {"vars", "output"} \X Forms}
+  \cup {[kind |-> "selfref", task |-> t, pos |-> "publish", ti |-> i - 1, k |-> 0, form |-> fm] :
+          <<t, i, fm>> \in {x \in Reachable(d) \X (1..4) \X Forms : x[2] <= Len(d.tasks[x[1]].next)}}
 
 MustReport(d, ft) ==
   CASE ft.kind = "undefined"  -> [cat |-> "semantics", task |-> ft.task, pos |-> "do", ti |-> ft.ti]
@@ -44,6 +49,7 @@ MustReport(d, ft) ==
     [] ft.kind = "nostart"    -> [cat |-> "semantics", task |-> "none", pos |-> "tasks", ti |-> -1]
     [] ft.kind = "grammar"    -> [cat |-> "expressions", task |-> ft.task, pos |-> ft.pos, ti |-> ft.ti]
     [] ft.kind = "unassigned" -> [cat |-> "context", task |-> ft.task, pos |-> ft.pos, ti |-> ft.ti]
+    [] ft.kind = "selfref"    -> [cat |-> "context", task |-> ft.task, pos |-> ft.pos, ti |-> ft.ti]
 
 Init == di \in 1..Len(Defs) /\ f \in Faults(Defs[di])
 Next == UNCHANGED <<di, f>>
